@@ -237,6 +237,24 @@ CHECKS = {
         "claim": "PARTIAL: the theorems are about the checker (sound and complete w.r.t. the definition) and the atomic-"
                  "section argument; the mapping of Go critical sections / SQL statements to atomic steps is sampled.",
     },
+    "C19": {
+        "family": "repo", "level": "proof", "modules": ["Gk.Props.C19"], "components": ["repo", "cron", "heap", "snapshot", "memspec", "next", "find"],
+        "runs": lambda tier: (lambda n: [
+            {"args": ["repo", "-impl", "mem", "-scribble", "-n", str(n), "-len", "40"]},
+            {"args": ["repo", "-impl", "mem", "-profile", "snapshot", "-scribble", "-n", str(n), "-len", "40"], "seed_off": 1},
+            {"args": ["repo", "-impl", "ent", "-scribble", "-workers", "1", "-n", str(max(n // 3, 60)), "-len", "30"], "seed_off": 2},
+            {"args": ["cron", "-scribble", "-n", str(n), "-len", "30"], "seed_off": 3},
+        ])({"quick": 300, "thorough": 6000, "widen": 1500}[tier]),
+        "rule": "the C01 / C14 / C15 histories re-run in scribbling mode: after every call the harness overwrites every "
+                "map reachable from every argument it passed and every value it received (insert, change every value, "
+                "delete a key), then re-reads the store: dump / heap / Schedule() must be unchanged, must still equal "
+                "the value-semantic model, and the scribble marker must never come back (crossings: the 8 Repository "
+                "methods on in-memory and ent, Save / Load, CronStore Pop / Peek / Schedule / Entry.Param, "
+                "volatileTaskRepo GetNext / GetById)",
+        "trusted_base": COMMON_TB + ["which crossings clone is hand-transcribed into Gk/Alias.lean's flags; only the "
+                                     "scribbling runs validate it"],
+        "assumptions": REPO_ASSUME,
+    },
     "C14": {
         "family": "repo", "level": "proof", "modules": ["Gk.Props.C14"],
         "components": ["repo", "heap", "snapshot", "memspec", "next", "find"],
